@@ -192,6 +192,8 @@ def b_float(interp, x=0.0):
         raise Unsupported("float(%s)" % x.kind)
     if isinstance(x, Unknown):
         return Unknown("float")
+    if type(x).__module__ == "numpy" and type(x).__name__ == "ndarray" and x.dtype == object and x.size == 1:
+        return b_float(interp, x.ravel()[0])      # float(array(obj)) is float(obj)
     f = getattr(type(x), "__float__", None)
     import types
     if isinstance(f, types.FunctionType) and interp.is_repo_function(f) and contains_sym(x):
@@ -744,6 +746,8 @@ def install(interp):
             from .qmodel import Quantity
             if isinstance(a, (Sym, Quantity)):
                 return a            # a 0-d array of one scalar behaves like the scalar
+            if isinstance(a, (list, tuple)) and not rest and "dtype" not in kw and contains_sym(a) and not any(isinstance(x, Quantity) for x in a):
+                return np.array(a, dtype=object, **kw)     # numbers that are symbolic: an object array holds them unchanged
             return np.array(a, *rest, **kw)
 
         def np_asarray(interp, a, *rest, **kw):
@@ -762,6 +766,32 @@ def install(interp):
             return np.abs(a, *rest, **kw)
         r(np.abs, np_abs)
         r(np.absolute, np_abs)
+
+        def np_argwhere(interp, a, *rest, **kw):
+            if isinstance(a, np.ndarray) and contains_sym(a):
+                # which elements are true is decided per path (one fork per symbolic element)
+                flat = [interp.bool_value(x) if isinstance(x, Sym) else bool(x) for x in a.ravel().tolist()]
+                return np.argwhere(np.array(flat, dtype=bool).reshape(a.shape))
+            return np.argwhere(a, *rest, **kw)
+        r(np.argwhere, np_argwhere)
+
+        def np_nonzero(interp, a, *rest, **kw):
+            if isinstance(a, np.ndarray) and contains_sym(a):
+                flat = [interp.bool_value(x != 0) if isinstance(x, Sym) else bool(x) for x in a.ravel().tolist()]
+                return np.nonzero(np.array(flat, dtype=bool).reshape(a.shape))
+            return np.nonzero(a, *rest, **kw)
+        r(np.nonzero, np_nonzero)
+
+        def np_extremum(name, builtin_stub):
+            def f(interp, a, *rest, **kw):
+                if isinstance(a, np.ndarray) and contains_sym(a) and not rest and not kw:
+                    return builtin_stub(interp, a.ravel().tolist())
+                return getattr(np, name)(a, *rest, **kw)
+            return f
+        r(np.max, np_extremum("max", b_max))
+        r(np.min, np_extremum("min", b_min))
+        r(np.amax, np_extremum("max", b_max))
+        r(np.amin, np_extremum("min", b_min))
 
         def np_opaque(name):
             def f(interp, *args, **kw):
